@@ -8,7 +8,11 @@ from sx.driver import from_json
 
 
 def main():
-    path = sys.argv[1]
+    for path in sys.argv[1:]:
+        one(path)
+
+
+def one(path):
     with open(path) as f:
         doc = json.load(f)
     hm = importlib.import_module('harness.%s' % doc['property'])
@@ -31,7 +35,7 @@ def main():
     except Exception:
         r = {'violated': False, 'error': traceback.format_exc()[-1500:]}
     assert 'pydiffx' not in sys.modules or not hasattr(sys.modules['pydiffx'], '_sx_call_')
-    print(json.dumps(r, default=repr))
+    print(json.dumps(r, default=repr), flush=True)
 
 
 if __name__ == '__main__':
